@@ -25,6 +25,7 @@ type c09Case struct {
 	Fill    int       `json:"fill"`
 	IOFill  int       `json:"iofill"`
 	Pokes   [][2]int  `json:"pokes"` // extra memory bytes (addr, value), e.g. the CPIR hit
+	NilIO   bool      `json:"nil_io,omitempty"` // no I/O device attached (port reads give 0, writes vanish)
 }
 
 type c09Spec struct {
@@ -178,6 +179,9 @@ type c09Rig struct {
 func newC09Rig() *c09Rig { return &c09Rig{ib: bus.New(), sh: bus.New(), lock: newLockRig()} }
 
 func (r *c09Rig) setup(b *bus.Rec, c *c09Case) {
+	if c.NilIO {
+		c.IOFill = 0
+	}
 	b.Reset(c.MemSeed, c.IOSeed, c.Fill, c.IOFill)
 	for _, p := range c.Pokes {
 		b.Poke(uint16(p[0]), uint8(p[1]))
@@ -190,12 +194,19 @@ func (r *c09Rig) setup(b *bus.Rec, c *c09Case) {
 func (r *c09Rig) run(c *c09Case) (string, string, int) {
 	r.setup(r.sh, c)
 	sp := c09Closed(c.Op, c.St, r.sh)
+	if sp.self && c.NilIO {
+		return "", "selfmod-without-io-device:skipped", sp.steps
+	}
 	if sp.self {
 		return r.runLockstep(c), "selfmod-lockstep", sp.steps
 	}
 	r.setup(r.ib, c)
 	r.ib.NoLog = sp.steps > 4096 // long runs: skip the access log, the memory image is still compared
 	r.cpu = z80.CPU{Memory: r.ib, IO: r.ib}
+	if c.NilIO {
+		r.cpu.IO = nil
+		sp.ports = nil
+	}
 	eng.ToCPU(&c.St, &r.cpu)
 	pc0 := c.St.PC
 	bc0 := uint16(c.St.B)<<8 | uint16(c.St.C)
@@ -298,6 +309,9 @@ func (r *c09Rig) singleVsRepeat(c *c09Case) string {
 		cc.Op = op
 		r.setup(r.ib, &cc)
 		r.cpu = z80.CPU{Memory: r.ib, IO: r.ib}
+		if c.NilIO {
+			r.cpu.IO = nil
+		}
 		eng.ToCPU(&c.St, &r.cpu)
 		p := eng.SafeStep(&r.cpu)
 		return eng.FromCPU(&r.cpu), append([]bus.Access(nil), r.ib.Log[2:]...), p
@@ -413,6 +427,10 @@ func TestC09(t *testing.T) {
 				continue
 			}
 			c := c09Case{Op: op, St: st, MemSeed: d.memSeed ^ uint64(oi)<<44, IOSeed: d.ioSeed, Fill: d.fill, IOFill: d.ioFill, Pokes: pokes}
+			if d.variant&7 == 1 && op&2 != 0 {
+				c.NilIO = true // block I/O on a CPU without I/O device: counters, pointers, flags and memory as ever
+				col.Label("no-io-device")
+			}
 			msg, label, steps := rig.run(&c)
 			col.Eval(1)
 			if msg == "" {
